@@ -566,7 +566,7 @@ void harvest(const char* name, const RunResult& rr, const std::vector<uint8_t>& 
 int preemptions(const std::vector<Point>& pts, size_t upto) { int c = 0; for (size_t j = 0; j < upto && j < pts.size(); ++j) if (pts[j].chosen != 0 && pts[j].cur_enabled) ++c; return c; }
 
 struct Explorer {
-   const char* name; Body body; Options opt; Stats* st; std::map<std::string, Finding>* findings; std::chrono::steady_clock::time_point t0; uint64_t top_index = 0; bool stop = false;
+   const char* name; Body body; Options opt; Stats* st; std::map<std::string, Finding>* findings; std::chrono::steady_clock::time_point t0; uint64_t top_index = 0; bool stop = false, watch_grew = false;
    bool out_of_budget() {
       if (stop) return true;
       if (st->executions >= opt.max_executions || std::chrono::duration<double>(std::chrono::steady_clock::now() - t0).count() > opt.deadline_s || (opt.keep_going && !opt.keep_going())) { st->complete = false; stop = true; }
@@ -581,8 +581,11 @@ struct Explorer {
       if (count) { ++st->executions; st->points += pts.size(); if (pts.size() > st->max_points) st->max_points = pts.size(); int p = preemptions(pts, pts.size()); ++st->by_preemptions[p > 7 ? 7 : p];
          if (st->sample_schedules.size() < 6 && (st->executions == 1 || (st->executions % 977) == 0)) st->sample_schedules.push_back(std::string(name) + ": " + schedule_text(full) + " -> " + sh->outcome); }
       (void)nf;
-      if (sh->n_newwatch) { st->late_watch_additions += sh->n_newwatch; for (int i = 0; i < sh->n_newwatch; ++i) g_watch.push_back(sh->newwatch[i]); std::sort(g_watch.begin(), g_watch.end()); g_watch.erase(std::unique(g_watch.begin(), g_watch.end()), g_watch.end()); }
-      return !rr.timeout && !sh->divergence && sh->done == 1;
+      if (sh->n_newwatch) {      // a location became shared that the learning runs had not seen: recorded prefixes are void, the search restarts with the larger set
+         st->late_watch_additions += sh->n_newwatch; for (int i = 0; i < sh->n_newwatch; ++i) g_watch.push_back(sh->newwatch[i]); std::sort(g_watch.begin(), g_watch.end()); g_watch.erase(std::unique(g_watch.begin(), g_watch.end()), g_watch.end());
+         if (count) { watch_grew = true; stop = true; }
+      }
+      return !rr.timeout && !sh->divergence && sh->done == 1 && !watch_grew;
    }
    void expand(const std::vector<Point>& pts, size_t from, int depth) {
       for (size_t i = from; i < pts.size() && !out_of_budget(); ++i) {
@@ -613,30 +616,40 @@ std::vector<uint8_t> parse_schedule(const std::string& s) {
 }
 
 void explore(const char* name, Body body, const Options& opt, Stats& st, std::map<std::string, Finding>& findings) {
-   Explorer ex; ex.name = name; ex.body = body; ex.opt = opt; ex.st = &st; ex.findings = &findings; ex.t0 = std::chrono::steady_clock::now();
-   // ---- learning phase: which locations are shared? run the default schedule and the "other thread first" schedules until the watch set is stable
    g_watch.clear();
-   std::vector<Point> pts; std::vector<Point> none;
-   for (int round = 0; round < 12; ++round) {
-      size_t before = g_watch.size();
-      ex.run({}, none, pts, false);
-      // non-preemptive variants: at every point take the LAST alternative (pushes the other threads forward first)
-      std::vector<uint8_t> alt; for (size_t i = 0; i < pts.size(); ++i) alt.push_back(uint8_t(pts[i].n - 1));
-      std::vector<Point> p2; RunResult rr = run_child(body, alt, nullptr, false, true); (void)rr;
-      if (sh->n_newwatch) { for (int i = 0; i < sh->n_newwatch; ++i) g_watch.push_back(sh->newwatch[i]); std::sort(g_watch.begin(), g_watch.end()); g_watch.erase(std::unique(g_watch.begin(), g_watch.end()), g_watch.end()); }
-      if (g_watch.size() == before) break;
+   uint64_t restarts = 0;
+   for (;;) {
+      Explorer ex; ex.name = name; ex.body = body; ex.opt = opt; ex.st = &st; ex.findings = &findings; ex.t0 = std::chrono::steady_clock::now();
+      // ---- learning phase: which locations are shared? run the default schedule and the "other threads first" schedule until the watch set is stable
+      std::vector<Point> pts; std::vector<Point> none;
+      for (int round = 0; round < 12; ++round) {
+         size_t before = g_watch.size();
+         ex.run({}, none, pts, false);
+         std::vector<uint8_t> alt; for (size_t i = 0; i < pts.size(); ++i) alt.push_back(uint8_t(pts[i].n - 1));
+         RunResult rr = run_child(body, alt, nullptr, false, true); (void)rr;
+         if (sh->n_newwatch) { for (int i = 0; i < sh->n_newwatch; ++i) g_watch.push_back(sh->newwatch[i]); std::sort(g_watch.begin(), g_watch.end()); g_watch.erase(std::unique(g_watch.begin(), g_watch.end()), g_watch.end()); }
+         if (g_watch.size() == before) break;
+      }
+      st.watch_locations = g_watch.size();
+      // ---- root execution + depth-first expansion
+      uint64_t ex0 = st.executions;
+      bool ok = ex.run({}, none, pts, opt.shard == 0);
+      if (ok) ex.expand(pts, 0, 0);
+      st.watch_locations = g_watch.size();
+      if (ex.watch_grew && restarts < 20 && (!opt.keep_going || opt.keep_going())) {
+         ++restarts; st.late_watch_additions = restarts;          // reported as the number of restarts
+         // the executions of the aborted round stay counted (they were real executions of the code); the search starts over
+         (void)ex0; st.complete = true; continue;
+      }
+      if (!ok && !ex.watch_grew) st.complete = false;
+      if (ex.watch_grew) st.complete = false;
+      break;
    }
-   st.late_watch_additions = 0; st.watch_locations = g_watch.size();
-   // ---- root execution + depth-first expansion
-   std::map<std::string, Finding> root_findings;
-   if (!ex.run({}, none, pts, opt.shard == 0)) { st.complete = false; return; }
-   ex.expand(pts, 0, 0);
-   st.watch_locations = g_watch.size();
 }
 
 void replay(const char* name, Body body, const std::vector<uint8_t>& schedule, std::map<std::string, Finding>& findings, bool verbose) {
    // the watch set must be the one of the exploration: learn it the same way
-   Stats st; std::map<std::string, Finding> tmp; Options o; o.bound = 0; o.max_executions = 0;
+   Stats st; std::map<std::string, Finding> tmp; Options o; o.bound = 1; o.max_executions = 200;      // short search: also picks up locations that only become shared under a preemption
    explore(name, body, o, st, tmp);
    for (int rep = 0; rep < 2; ++rep) {
       RunResult rr = run_child(body, schedule, nullptr, verbose && rep == 0);
